@@ -50,16 +50,17 @@ def check_rerun(spec: dict) -> core.CaseResult:
             res1 = lab1.run_tasks(requested, disable_progress=True, disable_top=True)
         except Exception as ex:
             return core.CaseResult(findings=[core.Finding(f'C06:first-run-raised:{type(ex).__name__}', repr(ex)[:300])])
-        meta1 = {t.name: t.result_meta for t in requested}
+        idx1 = {id(t): i for i, t in enumerate(tasks)}
+        meta1 = {idx1[id(t)]: t.result_meta for t in requested}
         closure = set()
         stack = list(requested)
         while stack:
             t = stack.pop()
-            if t.name in closure:
+            if id(t) in closure:
                 continue
-            closure.add(t.name)
+            closure.add(id(t))
             stack.extend(vu.walk_tasks(t.deps))
-        ran = [t for t in tasks if t.name in closure]
+        ran = [t for t in tasks if id(t) in closure and type(t).__name__ != 'RZ']
         for t in ran:
             if not lab1.is_cached(t):
                 findings.append(core.Finding('C06:executed-task-not-reported-cached', t.name))
@@ -96,7 +97,7 @@ def check_rerun(spec: dict) -> core.CaseResult:
                 res2, meta2 = {}, {}
             else:
                 res2, meta2 = out['values'], out['meta']
-                if not all(out['is_cached'][i] for i, t in enumerate(tasks) if t.name in closure):
+                if not all(out['is_cached'][i] for i, t in enumerate(tasks) if id(t) in closure and type(t).__name__ != 'RZ'):
                     findings.append(core.Finding('C06:not-reported-cached-in-a-fresh-process', str(out['is_cached'])))
                 if out['keys'] != [t.cache_key for t in tasks]:
                     findings.append(core.Finding('C06:cache_key-differs-in-a-fresh-process', ''))
@@ -109,25 +110,28 @@ def check_rerun(spec: dict) -> core.CaseResult:
                 lab2 = labtech.Lab(storage=lab1._storage, runner_backend=spec['b2'], notebook=False, max_workers=2)
             try:
                 r2 = lab2.run_tasks(req2, disable_progress=True, disable_top=True)
-                res2 = {t.name: v for t, v in r2.items()}
-                meta2 = {t.name: t.result_meta for t in req2}
+                idx2 = {id(t): i for i, t in enumerate(tasks2)}
+                res2 = {idx2[id(t)]: v for t, v in r2.items()}
+                meta2 = {idx2[id(t)]: t.result_meta for t in req2}
             except Exception as ex:
                 findings.append(core.Finding(f'C06:second-run-raised:{type(ex).__name__}', repr(ex)[:300]))
                 res2, meta2 = {}, {}
         if res2:
             for t, v in res1.items():
-                if t.name not in res2:
+                i = idx1[id(t)]
+                if i not in res2:
                     findings.append(core.Finding('C06:second-run-missing-a-result', t.name))
-                elif res2[t.name] != v:
-                    other = [n for n, v1 in ((tt.name, vv) for tt, vv in res1.items()) if v1 == res2[t.name]]
+                elif res2[i] != v:
+                    other = [tt.name for tt, vv in res1.items() if vv == res2[i]]
                     findings.append(core.Finding('C06:loaded-value-differs-from-the-stored-one' + (':another-tasks-result' if other else ''),
-                                                 f'{t.name}: {str(res2[t.name])[:120]} vs {str(v)[:120]}'))
-                if meta2.get(t.name) != meta1[t.name] or meta1[t.name] is None:
-                    findings.append(core.Finding('C06:result_meta-differs-from-the-recorded-one', f'{t.name}: {meta2.get(t.name)} vs {meta1[t.name]}'))
-        s2 = [r[1] for r in vu.read_trace(obs2) if r[0] == 'S']
+                                                 f'{t.name}: {str(res2[i])[:120]} vs {str(v)[:120]}'))
+                if type(t).__name__ != 'RZ' and (meta2.get(i) != meta1[i] or meta1[i] is None):
+                    findings.append(core.Finding('C06:result_meta-differs-from-the-recorded-one', f'{t.name}: {meta2.get(i)} vs {meta1[i]}'))
+        req_uncached = {tasks[i].name for i in spec['requested'] if spec['nodes'][i]['type'] == 'RZ'}
+        s2 = [r[1] for r in vu.read_trace(obs2) if r[0] == 'S' and not (r[5] == 'RZ' and r[1] in req_uncached)]
         if s2:
             findings.append(core.Finding('C06:cached-task-executed-again', f'{s2}'))
-        summary = {'first': sorted(closure), 'second_mode': mode, 'b1': spec['b1'], 'b2': spec['b2']}
+        summary = {'first': sorted(t.name for t in ran), 'second_mode': mode, 'b1': spec['b1'], 'b2': spec['b2']}
     finally:
         if old is None:
             os.environ.pop('VERIF_OBS_DIR', None)
@@ -151,20 +155,24 @@ def check_roundtrip(spec: dict) -> core.CaseResult:
         tasks = resultcase.build_tasks(spec)
         saved = {}
         for i, t in enumerate(tasks):
+            if type(t).__name__ == 'RZ':
+                continue
             m = spec['metas'][i % len(spec['metas'])]
             meta = ResultMeta(start=datetime(*m['start']), duration=timedelta(days=m['dur'][0], seconds=m['dur'][1], microseconds=m['dur'][2]))
-            value = {'name': t.name, 'v': vu.build_shape(t.shape), 'gen': None}
+            value = {'name': t.name, 'v': vu.build_shape(t.shape), 'gen': None, 'i': i}
             t._lt.cache.save(storage, t, TaskResult(value=value, meta=meta))
-            saved[t.name] = (value, meta)
-        for t in resultcase.build_tasks(spec):
+            saved[i] = (value, meta)
+        for i, t in enumerate(resultcase.build_tasks(spec)):
+            if i not in saved:
+                continue
             if not t._lt.cache.is_cached(storage, t):
                 findings.append(core.Finding('C06:saved-but-not-is_cached', t.name))
                 continue
             r = t._lt.cache.load_result_with_meta(storage, t)
-            if r.value != saved[t.name][0]:
+            if r.value != saved[i][0]:
                 findings.append(core.Finding('C06:roundtrip-value-differs', t.name))
-            if r.meta != saved[t.name][1]:
-                findings.append(core.Finding('C06:roundtrip-meta-differs', f'{r.meta} vs {saved[t.name][1]}'))
+            if r.meta != saved[i][1]:
+                findings.append(core.Finding('C06:roundtrip-meta-differs', f'{r.meta} vs {saved[i][1]}'))
     finally:
         shutil.rmtree(d, ignore_errors=True)
     seen = set()
